@@ -193,6 +193,10 @@ int sqfs_dir_writer_add_entry(sqfs_dir_writer_t *writer, const char *name,
 	if (name[0] == '\0' || inode_num < 1)
 		return SQFS_ERROR_ARG_INVALID;
 
+	/* on-disk limit: 256 bytes, stored as a 16 bit "size - 1" */
+	if (strlen(name) > 256)
+		return SQFS_ERROR_OVERFLOW;
+
 	err = add_export_table_entry(writer, inode_num, inode_ref);
 	if (err)
 		return err;
